@@ -75,8 +75,8 @@ def replay(rec, visitor_spec):
     default_fn = make_env(cfg["env"], cfg)
     alts = _alt_fns(default_fn, [tuple(a) for a in rec["alts"]])
     dev = tuple((int(p), int(a)) for p, a in rec["dev"])
-    run = tree.make_run(cfg, tree.dev_answer(default_fn, alts, dev))
     vis = V()
+    run = tree.make_run(cfg, tree.dev_answer(default_fn, alts, dev), listeners=tree._listeners(vis, cfg))
     vis.begin(run, cfg)
     msgs = []
     for j in range(1, int(rec["h"]) + 1):
@@ -86,6 +86,7 @@ def replay(rec, visitor_spec):
             msgs.append(f"DoGlobalIteration raised {type(e).__name__}: {e} at trial {j}")
             return msgs
         msgs += list(vis.node(run, j, True) or ())
+    msgs += list(vis.leaf(run) or ())
     return msgs
 
 
